@@ -1,3 +1,235 @@
+(* C14 -- lemmas about the model and the specification of Model/C14.v (part 1: arrays, the scatter loop,
+   entry formulas of every routine). *)
 From Coq Require Import ZArith List Bool Lia.
 From PAV Require Import Base.Res Base.Check Model.C14.
-Lemma stub : True. Proof. exact I. Qed.
+Import ListNotations.
+Local Open Scope Z_scope.
+
+Ltac zdiv := Z.div_mod_to_equations; lia.
+Ltac boolp :=
+  repeat match goal with
+  | H : _ && _ = true |- _ => apply andb_prop in H; destruct H
+  | H : (_ <=? _) = true |- _ => apply Z.leb_le in H
+  | H : (_ <? _) = true |- _ => apply Z.ltb_lt in H
+  | H : (_ =? _) = true |- _ => apply Z.eqb_eq in H
+  | H : (_ <=? _) = false |- _ => apply Z.leb_gt in H
+  | H : (_ <? _) = false |- _ => apply Z.ltb_ge in H
+  | H : (_ =? _) = false |- _ => apply Z.eqb_neq in H
+  | H : negb _ = true |- _ => apply negb_true_iff in H
+  end.
+
+(* ------------------------------------------------------------------ lists *)
+Lemma nth_firstn_lt {B} (l : list B) : forall n i d, (i < n)%nat -> nth i (firstn n l) d = nth i l d.
+Proof. induction l as [|h t IH]; intros [|n] [|i] d Hi; cbn; try reflexivity; try lia. apply IH. lia. Qed.
+Lemma nth_skipn_add {B} (l : list B) : forall n i d, nth i (skipn n l) d = nth (n + i) l d.
+Proof. induction l as [|h t IH]; intros [|n] i d; cbn; try reflexivity; [destruct i; reflexivity | apply IH]. Qed.
+Lemma nth_repeat_lt {B} (a : B) : forall k i d, (i < k)%nat -> nth i (repeat a k) d = a.
+Proof. induction k as [|k IH]; intros [|i] d Hi; cbn; try lia; try reflexivity. apply IH. lia. Qed.
+Lemma nth_combine {B C} (l : list B) : forall (l' : list C) i d d', (i < length l)%nat -> (i < length l')%nat ->
+  nth i (combine l l') (d, d') = (nth i l d, nth i l' d').
+Proof.
+  induction l as [|h t IH]; intros [|h' t'] [|i] d d' H1 H2; cbn in *; try lia; try reflexivity. apply IH; lia.
+Qed.
+Lemma flat_map_nil {B C} (f : B -> list C) (l : list B) : (forall x, In x l -> f x = []) -> flat_map f l = [].
+Proof. induction l as [|h t IH]; intros Hf; cbn; [reflexivity|]. rewrite Hf by (left; reflexivity). apply IH. intros; apply Hf; right; assumption. Qed.
+Lemma flat_map_ext_in {B C} (f g : B -> list C) (l : list B) : (forall x, In x l -> f x = g x) -> flat_map f l = flat_map g l.
+Proof. induction l as [|h t IH]; intros Hf; cbn; [reflexivity|]. rewrite Hf by (left; reflexivity). f_equal. apply IH. intros; apply Hf; right; assumption. Qed.
+Lemma flat_map_map {B C D} (f : C -> list D) (g : B -> C) (l : list B) : flat_map f (map g l) = flat_map (fun x => f (g x)) l.
+Proof. induction l as [|h t IH]; cbn; [reflexivity|]. now rewrite IH. Qed.
+Lemma map_flat_map {B C D} (f : C -> D) (g : B -> list C) (l : list B) : map f (flat_map g l) = flat_map (fun x => map f (g x)) l.
+Proof. induction l as [|h t IH]; cbn; [reflexivity|]. now rewrite map_app, IH. Qed.
+
+(* ------------------------------------------------------------------ set1 / set2 *)
+Lemma set1_length {B} (l : list B) : forall i v, length (set1 l i v) = length l.
+Proof. induction l as [|h t IH]; intros [|i] v; cbn; try reflexivity. now rewrite IH. Qed.
+Lemma nth_set1 {B} (l : list B) : forall i v j d,
+  nth j (set1 l i v) d = if (Nat.eqb j i && Nat.ltb i (length l))%bool then v else nth j l d.
+Proof.
+  induction l as [|h t IH]; intros [|i] v [|j] d; cbn; try reflexivity.
+  - destruct (Nat.eqb j i); reflexivity.
+  - rewrite IH. reflexivity.
+Qed.
+
+(* rectangular with R0 rows of R1 entries *)
+Definition Rect {B} (R0 R1 : nat) (m : list (list B)) : Prop :=
+  length m = R0 /\ forall a, (a < R0)%nat -> length (nth a m []) = R1.
+
+Lemma Rect_zeros {B} (z : B) R0 R1 : Rect R0 R1 (zeros z R0 R1).
+Proof. split; [apply repeat_length|]. intros a Ha. unfold zeros. rewrite nth_repeat_lt by assumption. apply repeat_length. Qed.
+Lemma get2_zeros {B} (z d : B) R0 R1 a b : (a < R0)%nat -> (b < R1)%nat -> get2 d (zeros z R0 R1) a b = z.
+Proof. intros. unfold get2, zeros. rewrite nth_repeat_lt by assumption. now apply nth_repeat_lt. Qed.
+
+Lemma Rect_set2 {B} R0 R1 (m : list (list B)) y x v : Rect R0 R1 m -> Rect R0 R1 (set2 m y x v).
+Proof.
+  intros [HL HR]. unfold set2. split; [now rewrite set1_length|].
+  intros a Ha. rewrite nth_set1. destruct (Nat.eqb a y && Nat.ltb y (length m))%bool eqn:E; [|now apply HR].
+  apply andb_prop in E. destruct E as [E _]. apply Nat.eqb_eq in E. subst a. rewrite set1_length. now apply HR.
+Qed.
+Lemma get2_set2 {B} R0 R1 (m : list (list B)) y x v a b d :
+  Rect R0 R1 m -> (y < R0)%nat -> (x < R1)%nat ->
+  get2 d (set2 m y x v) a b = if (Nat.eqb a y && Nat.eqb b x)%bool then v else get2 d m a b.
+Proof.
+  intros [HL HR] Hy Hx. unfold get2, set2. rewrite nth_set1.
+  assert (Ly : Nat.ltb y (length m) = true) by (apply Nat.ltb_lt; lia). rewrite Ly, andb_true_r.
+  destruct (Nat.eqb a y) eqn:E; cbn [andb]; [|reflexivity].
+  apply Nat.eqb_eq in E. subst a. rewrite nth_set1.
+  assert (Lx : Nat.ltb x (length (nth y m [])) = true) by (apply Nat.ltb_lt; rewrite HR; lia). rewrite Lx, andb_true_r.
+  reflexivity.
+Qed.
+
+Lemma Rect_ext {B} R0 R1 (m m' : list (list B)) (d : B) :
+  Rect R0 R1 m -> Rect R0 R1 m' ->
+  (forall a b, (a < R0)%nat -> (b < R1)%nat -> get2 d m a b = get2 d m' a b) -> m = m'.
+Proof.
+  intros [L1 C1] [L2 C2] HE. apply (nth_ext m m' [] []); [lia|].
+  intros a Ha. rewrite L1 in Ha. apply (nth_ext _ _ d d); [rewrite C1, C2; lia|].
+  intros b Hb. rewrite C1 in Hb by assumption. now apply HE.
+Qed.
+
+(* ------------------------------------------------------------------ the scatter loop *)
+Section Loop.
+  Context {B : Type} (R0 R1 : nat) (w : nat -> nat -> option B).
+  Hypothesis guard : forall yr xr v, w yr xr = Some v -> (yr < R0)%nat /\ (xr < R1)%nat.
+  Definition wr (o : list (list B)) (yr xr : nat) := match w yr xr with Some v => set2 o yr xr v | None => o end.
+
+  Lemma wr_spec o yr xr : Rect R0 R1 o ->
+    Rect R0 R1 (wr o yr xr) /\
+    forall a b d, get2 d (wr o yr xr) a b =
+      if (Nat.eqb a yr && Nat.eqb b xr)%bool then match w yr xr with Some v => v | None => get2 d o a b end else get2 d o a b.
+  Proof.
+    intros HR. unfold wr. destruct (w yr xr) as [v|] eqn:E.
+    - destruct (guard _ _ _ E) as [G1 G2]. split; [now apply Rect_set2|]. intros a b d. now apply (get2_set2 R0 R1).
+    - split; [assumption|]. intros a b d. destruct (Nat.eqb a yr && Nat.eqb b xr)%bool; reflexivity.
+  Qed.
+
+  Lemma inner_spec yr : forall n s o, Rect R0 R1 o ->
+    let o' := fold_left (fun o xr => wr o yr xr) (seq s n) o in
+    Rect R0 R1 o' /\
+    forall a b d, get2 d o' a b =
+      if (Nat.eqb a yr && Nat.leb s b && Nat.ltb b (s + n))%bool
+      then match w yr b with Some v => v | None => get2 d o a b end else get2 d o a b.
+  Proof.
+    induction n as [|n IH]; intros s o HR; cbn [seq fold_left].
+    - split; [assumption|]. intros a b d.
+      destruct (Nat.eqb a yr && Nat.leb s b && Nat.ltb b (s + 0))%bool eqn:E; [|reflexivity].
+      apply andb_prop in E. destruct E as [E E3]. apply andb_prop in E. destruct E as [_ E2].
+      apply Nat.leb_le in E2. apply Nat.ltb_lt in E3. lia.
+    - destruct (wr_spec o yr s HR) as [HR1 G1]. destruct (IH (S s) _ HR1) as [HR2 G2].
+      split; [exact HR2|]. intros a b d. rewrite G2, G1.
+      destruct (Nat.eqb a yr) eqn:Ea; cbn [andb]; [|reflexivity].
+      destruct (Nat.eqb b s) eqn:Eb.
+      + apply Nat.eqb_eq in Eb. subst b.
+        assert (X1 : Nat.leb (S s) s = false) by (apply Nat.leb_gt; lia).
+        assert (X2 : Nat.leb s s = true) by (apply Nat.leb_le; lia).
+        assert (X3 : Nat.ltb s (s + S n) = true) by (apply Nat.ltb_lt; lia).
+        rewrite X1, X2, X3. cbn [andb]. reflexivity.
+      + apply Nat.eqb_neq in Eb.
+        destruct (Nat.leb (S s) b) eqn:E1.
+        * apply Nat.leb_le in E1. assert (X2 : Nat.leb s b = true) by (apply Nat.leb_le; lia). rewrite X2. cbn [andb].
+          replace (s + S n)%nat with (S s + n)%nat by lia. destruct (Nat.ltb b (S s + n)); [|reflexivity].
+          destruct (w yr b); reflexivity.
+        * apply Nat.leb_gt in E1. assert (X2 : Nat.leb s b = false) by (apply Nat.leb_gt; lia). rewrite X2. reflexivity.
+  Qed.
+
+  Lemma outer_spec n1 : forall n s o, Rect R0 R1 o ->
+    let o' := fold_left (fun o yr => fold_left (fun o xr => wr o yr xr) (seq 0 n1) o) (seq s n) o in
+    Rect R0 R1 o' /\
+    forall a b d, get2 d o' a b =
+      if (Nat.leb s a && Nat.ltb a (s + n) && Nat.ltb b n1)%bool
+      then match w a b with Some v => v | None => get2 d o a b end else get2 d o a b.
+  Proof.
+    induction n as [|n IH]; intros s o HR; cbn [seq fold_left].
+    - split; [assumption|]. intros a b d.
+      destruct (Nat.leb s a && Nat.ltb a (s + 0) && Nat.ltb b n1)%bool eqn:E; [|reflexivity].
+      apply andb_prop in E. destruct E as [E _]. apply andb_prop in E. destruct E as [E1 E2].
+      apply Nat.leb_le in E1. apply Nat.ltb_lt in E2. lia.
+    - destruct (inner_spec s n1 0%nat o HR) as [HR1 G1]. destruct (IH (S s) _ HR1) as [HR2 G2].
+      split; [exact HR2|]. intros a b d. rewrite G2, G1.
+      change (Nat.leb 0 b) with true. change (0 + n1)%nat with n1. rewrite andb_true_r.
+      destruct (Nat.eqb a s) eqn:Ea.
+      + apply Nat.eqb_eq in Ea. subst a.
+        assert (X1 : Nat.leb (S s) s = false) by (apply Nat.leb_gt; lia).
+        assert (X2 : Nat.leb s s = true) by (apply Nat.leb_le; lia).
+        assert (X3 : Nat.ltb s (s + S n) = true) by (apply Nat.ltb_lt; lia).
+        rewrite X1, X2, X3. cbn [andb]. reflexivity.
+      + apply Nat.eqb_neq in Ea. cbn [andb].
+        destruct (Nat.leb (S s) a) eqn:E1.
+        * apply Nat.leb_le in E1. assert (X2 : Nat.leb s a = true) by (apply Nat.leb_le; lia). rewrite X2. cbn [andb].
+          replace (s + S n)%nat with (S s + n)%nat by lia. reflexivity.
+        * apply Nat.leb_gt in E1. assert (X2 : Nat.leb s a = false) by (apply Nat.leb_gt; lia). rewrite X2. reflexivity.
+  Qed.
+
+  Lemma loop2_spec n0 n1 o : Rect R0 R1 o ->
+    Rect R0 R1 (loop2 n0 n1 w o) /\
+    forall a b d, get2 d (loop2 n0 n1 w o) a b =
+      if (Nat.ltb a n0 && Nat.ltb b n1)%bool then match w a b with Some v => v | None => get2 d o a b end else get2 d o a b.
+  Proof. intros HR. destruct (outer_spec n1 n0 0%nat o HR) as [H1 H2]. split; [exact H1|]. intros a b d. exact (H2 a b d). Qed.
+End Loop.
+
+(* ------------------------------------------------------------------ entry view of an array (indices in Z) *)
+Definition inr (i n : Z) : bool := (0 <=? i) && (i <? n).
+Definition Entries {B} (m : list (list B)) (R0 R1 : Z) (f : Z -> Z -> B) : Prop :=
+  0 <= R0 /\ 0 <= R1 /\ Rect (Z.to_nat R0) (Z.to_nat R1) m /\
+  forall i j d, 0 <= i < R0 -> 0 <= j < R1 -> zget2 d m i j = f i j.
+
+Lemma hd_nth0 {B} (m : list (list B)) : hd [] m = nth 0 m [].
+Proof. destruct m; reflexivity. Qed.
+Lemma Entries_shape {B} (m : list (list B)) R0 R1 f : Entries m R0 R1 f -> 0 < R0 -> nrows m = R0 /\ ncols m = R1.
+Proof.
+  intros (H0 & H1 & [HL HC] & _) HP. unfold nrows, ncols. split; [lia|].
+  rewrite hd_nth0, HC by lia. lia.
+Qed.
+Lemma Entries_ext {B} (d : B) (m m' : list (list B)) R0 R1 f g :
+  Entries m R0 R1 f -> Entries m' R0 R1 g ->
+  (forall i j, 0 <= i < R0 -> 0 <= j < R1 -> f i j = g i j) -> m = m'.
+Proof.
+  intros (H0 & H1 & HR & HE) (_ & _ & HR' & HE') HF. apply (Rect_ext _ _ m m' d HR HR').
+  intros a b Ha Hb. specialize (HE (Z.of_nat a) (Z.of_nat b) d). specialize (HE' (Z.of_nat a) (Z.of_nat b) d).
+  unfold zget2 in HE, HE'. rewrite !Nat2Z.id in HE, HE'. rewrite HE, HE' by lia. apply HF; lia.
+Qed.
+Lemma Entries_fext {B} (m : list (list B)) R0 R1 f g :
+  Entries m R0 R1 f -> (forall i j, 0 <= i < R0 -> 0 <= j < R1 -> f i j = g i j) -> Entries m R0 R1 g.
+Proof. intros (H0 & H1 & HR & HE) HF. repeat split; try assumption; try apply HR. intros. rewrite HE by assumption. now apply HF. Qed.
+
+Lemma if_same {B} (b : bool) (x : B) : (if b then x else x) = x.
+Proof. destruct b; reflexivity. Qed.
+Lemma int_half_div n : 0 <= n -> int_half n = n / 2.
+Proof. intros. unfold int_half. apply Z.quot_div_nonneg; lia. Qed.
+
+(* resized_array_2d_from, default origin: the entry formula new[i, j] = old[i + H/2 - r0/2, j + W/2 - r1/2] or pad *)
+Definition resized_fun {B} (H W r0 r1 : Z) (pad : B) (f : Z -> Z -> B) : Z -> Z -> B :=
+  fun i j => if inr (i + (H / 2 - r0 / 2)) H && inr (j + (W / 2 - r1 / 2)) W
+             then f (i + (H / 2 - r0 / 2)) (j + (W / 2 - r1 / 2)) else pad.
+
+Lemma resized_entries {B} (zero pad : B) (a : list (list B)) H W f r0 r1 :
+  Entries a H W f -> 0 < H -> 0 <= r0 -> 0 <= r1 ->
+  exists m', resized_array_2d_from zero a (r0, r1) (-1, -1) pad = Ok m' /\ Entries m' r0 r1 (resized_fun H W r0 r1 pad f).
+Proof.
+  intros HE HP Hr0 Hr1. destruct (Entries_shape _ _ _ _ HE HP) as [HnR HnC].
+  destruct HE as (HH & HW & HR & HE).
+  unfold resized_array_2d_from. rewrite HnR, HnC. cbn [fst snd]. rewrite !if_same.
+  change ((-1 =? -1) && (-1 =? -1)) with true. cbv iota. cbn [fst snd].
+  assert (E0 : (r0 <? 0) || (r1 <? 0) = false) by (apply orb_false_iff; split; apply Z.ltb_ge; lia).
+  rewrite E0. rewrite !int_half_div by lia.
+  eexists. split; [reflexivity|].
+  match goal with |- Entries (loop2 ?n0 ?n1 ?w ?o) _ _ _ =>
+    assert (G : forall yr xr v, w yr xr = Some v -> (yr < Z.to_nat r0)%nat /\ (xr < Z.to_nat r1)%nat);
+    [| destruct (loop2_spec (Z.to_nat r0) (Z.to_nat r1) w G n0 n1 o (Rect_zeros zero _ _)) as [LR LG]] end.
+  { intros yr xr v. cbv beta zeta.
+    destruct ((0 <=? Z.of_nat yr) && (Z.of_nat yr <? r0) && (0 <=? Z.of_nat xr) && (Z.of_nat xr <? r1)) eqn:D.
+    - intros _. boolp. lia.
+    - rewrite !if_same. discriminate. }
+  split; [lia|]. split; [lia|]. split; [exact LR|].
+  intros i j d Hi Hj. unfold zget2. rewrite LG. cbv beta zeta.
+  assert (X1 : Nat.ltb (Z.to_nat i) (Z.to_nat (H / 2 + r0 / 2 + 1 - (H / 2 - r0 / 2))) = true) by (apply Nat.ltb_lt; zdiv).
+  assert (X2 : Nat.ltb (Z.to_nat j) (Z.to_nat (W / 2 + r1 / 2 + 1 - (W / 2 - r1 / 2))) = true) by (apply Nat.ltb_lt; zdiv).
+  rewrite X1, X2. cbn [andb]. rewrite !Z2Nat.id by lia.
+  assert (D : (0 <=? i) && (i <? r0) && (0 <=? j) && (j <? r1) = true).
+  { rewrite !andb_true_iff. repeat split; try (apply Z.leb_le; lia); apply Z.ltb_lt; lia. }
+  rewrite D. unfold resized_fun, inr.
+  replace (H / 2 - r0 / 2 + i) with (i + (H / 2 - r0 / 2)) by lia.
+  replace (W / 2 - r1 / 2 + j) with (j + (W / 2 - r1 / 2)) by lia.
+  set (y := i + (H / 2 - r0 / 2)). set (x := j + (W / 2 - r1 / 2)).
+  destruct (Z.leb_spec 0 y), (Z.ltb_spec y H), (Z.leb_spec 0 x), (Z.ltb_spec x W); cbn [andb]; try reflexivity.
+  apply HE; lia.
+Qed.
